@@ -152,7 +152,7 @@ fn run_solve(a: &Args, limits: &Limits, symbolic: bool, initial: &[(String, i64)
                         macro_rules! go {
                             ($d:ty) => {
                                 if c.cache {
-                                    explore(limits, gp.seed, symbolic, initial, &mut || solve::body::<$d, SimpleCache<St>>(&c))
+                                    explore(limits, gp.seed, symbolic, initial, &mut || solve::body::<$d, solve::CountingCache>(&c))
                                 } else {
                                     explore(limits, gp.seed, symbolic, initial, &mut || solve::body::<$d, EmptyCache<St>>(&c))
                                 }
@@ -208,7 +208,7 @@ fn run_par(a: &Args, limits: &Limits, symbolic: bool, initial: &[(String, i64)])
                         macro_rules! go {
                             ($d:ty) => {
                                 if cache == "1" {
-                                    explore(limits, gp.seed, symbolic, initial, &mut || par::body::<$d, SimpleCache<St>>(&c))
+                                    explore(limits, gp.seed, symbolic, initial, &mut || par::body::<$d, crate::solve::CountingCache>(&c))
                                 } else {
                                     explore(limits, gp.seed, symbolic, initial, &mut || par::body::<$d, EmptyCache<St>>(&c))
                                 }
@@ -346,6 +346,37 @@ fn main() {
             }
             println!("{}", found.join(","));
         }
+        "finddynsolve" => {
+            // seeds whose sequential solve (given dd / cache / fringe / width) shows all wanted notes in one concrete probe run
+            let wantn = a.list("notes", "");
+            let (start, count, take, tries) = (a.num("start", 1), a.num("count", 1000), a.num("take", 8), a.num("tries", 24));
+            let mut found = vec![];
+            let mut gp = gen_params(&a);
+            let lim = Limits { max_paths: 1, max_secs: 5.0, max_violations: 1000 };
+            for s in start..start + count {
+                gp.seed = s;
+                let c = solve::SolveCase { shape: Shape::generate(&gp), rub: Rub::None, cache: true, nodup: a.get("fringe", "simple") == "nodup", width: a.num("width", 1) as usize, rev_rank: false, mode: solve::Mode::Plain, warm: 0, props: vec!["C01".to_string()], kmax: 40, sym_init: false };
+                let mut hit = false;
+                for t in 0..tries {
+                    let rep = match a.get("dd", "lel").as_str() {
+                        "frontier" => explore(&lim, s * 1000 + t, false, &[], &mut || solve::body::<Mdd<St, { FRONTIER }>, solve::CountingCache>(&c)),
+                        "pooled" => explore(&lim, s * 1000 + t, false, &[], &mut || solve::body::<Pooled<St>, solve::CountingCache>(&c)),
+                        _ => explore(&lim, s * 1000 + t, false, &[], &mut || solve::body::<Mdd<St, { LAST_EXACT_LAYER }>, solve::CountingCache>(&c)),
+                    };
+                    if wantn.iter().all(|w| rep.notes.get(w).copied().unwrap_or(0) > 0) {
+                        hit = true;
+                        break;
+                    }
+                }
+                if hit {
+                    found.push(s.to_string());
+                    if found.len() as u64 >= take {
+                        break;
+                    }
+                }
+            }
+            println!("{}", found.join(","));
+        }
         "finddyn" => {
             // dynamic feature-directed sampling: seeds whose structure shows ALL the wanted notes in ONE concrete
             // run of the diagram-level body under some of `tries` pseudo-random cost vectors
@@ -369,10 +400,10 @@ fn main() {
                     root: a.num("roots", 0) as usize,
                     sym_lb: false,
                     rev_rank: false,
-                    history: 0,
-                    hist_seed: 0,
+                    history: a.num("hist", 0) as usize,
+                    hist_seed: a.num("hist_seed", 0),
                     viz_all: false,
-                    props: vec!["C06".to_string(), "C08".to_string()],
+                    props: a.list("props", "C06,C08"),
                 };
                 let mut hit = false;
                 for t in 0..tries {
